@@ -2236,7 +2236,22 @@ def _patch_exec():
     def store_subscript(self, tgt, sv, st, ctx, k):
         def got_base(b, st2):
             if isinstance(tgt.slice, ast.Slice):
-                raise OutOfSubset("slice store")
+                # lst[a:b] = iterable (step 1) on a list / deque object: lst[:a'] + values + lst[b':] with Python's clamping, b' = max(a', b')
+                sl = tgt.slice
+                if sl.step is not None or not (b.kind == "v" and b.hint in ("list", "deque")):
+                    raise OutOfSubset("slice store")
+                def got(lo, hi, st3):
+                    sq = self.hget(st3, "$seq", b.t)
+                    n = L.slen(sq)
+                    a, bb = self.clamp_slice(self.as_int(lo) if lo is not None else None, self.as_int(hi) if hi is not None else None, n)
+                    k(self.hset(st3, "$seq", b.t, L.cat(L.cat(L.slc(sq, IntVal(0), a), self.as_seq(sv, st3)), L.slc(sq, bb, n))))
+                def with_lo(lo, st1):
+                    if sl.upper is None:
+                        return got(lo, None, st1)
+                    self.ev(sl.upper, st1, ctx, lambda hi, st3: got(lo, hi, st3))
+                if sl.lower is None:
+                    return with_lo(None, st2)
+                return self.ev(sl.lower, st2, ctx, with_lo)
             def got_idx(ix, st3):
                 if b.kind == "v" and is_dict_hint(b.hint):
                     kk = self.to_v(ix)
